@@ -183,9 +183,12 @@ impl<'a> BinArchiveWriter<'a> {
     }
 
     pub fn write_bytes(&mut self, value: &[u8]) -> Result<()> {
-        for byte in value {
-            self.write_u8(*byte)?;
+        if value.is_empty() {
+            return Ok(());
         }
+        // Validate the whole range up front so a write that does not fit changes nothing.
+        self.archive.write_bytes(self.position, value)?;
+        self.position += value.len();
         Ok(())
     }
 
